@@ -769,7 +769,9 @@ def generate(repo, pid='C01', extra_imports=(), extra_opens=(), extra=None, skip
                 for ln, (d, k) in loads:
                     if not any(sl < ln and sk == k for sl, sk in setups):
                         raise Untranslatable(f'{name} indexes {d}[{k}] without a preceding self._setup_bases({k})')
-                    if len(find_assigns(f, k)) != 1:
+                    # the key variable is assigned once, or is a parameter of a helper (`_adjoint(self, key, ...)`) never re-assigned
+                    is_param = k in [a.arg for a in f.args.args]
+                    if len(find_assigns(f, k)) != (0 if is_param else 1):
                         raise Untranslatable(f'{name}: key variable {k} assigned more than once')
                     uses.append(d)
             resets = []
